@@ -32,6 +32,15 @@ def run(tier, seed, t0):
                     json.dumps(e["A2"])[:200], json.dumps(e["A"])[:200], json.dumps(e["B"])[:200], e["r2"], e["r1"])})
     for e in events:
         if e["op"] == "compose" and e["got"] != e["some_child"]:
+            rec = {"property": PID, "event": e, "what": "%s %s: the collection answers %s, some child answers %s" % (e["kind"], e["what"], e["got"], e["some_child"])}
+            kf = v.find_known("circle.go:161-163")
+            # known: a Circle child is pruned by its rectangle, which is that of the polygon approximation and misses part of the disc
+            if kf is not None and e.get("outside_child_rect") and e["some_child"] and not e["got"]:
+                v.known_finding(kf["id"], rec)
+                continue
+            v.violation(rec)
+            continue
+        if False:
             v.violation({"property": PID, "event": e, "what": "%s %s: the collection answers %s, some child answers %s" % (e["kind"], e["what"], e["got"], e["some_child"])})
     rc = v.finish()
     cov = {
